@@ -184,7 +184,11 @@ def judge_reporting(obs, ex, m, before_state):
     if m.level not in ('story', 'item') or obs.parse_exc or ex.degenerate or not ex.allowed:
         return fails
     if obs.exc is not None:
-        return fails            # raising is always an admissible way to report
+        if obs.exc_is_merge:
+            return fails        # raising MosMergeError is always an admissible way to report
+        return [Failure('C06', f'C06|{m.kind}|{pos_tag(ex)}|raised-{obs.exc_type}',
+                        f'{m.kind}: neither applied, nor MosMergeError, nor a warning: {obs.exc_type} '
+                        f'at {obs.exc_site}: {obs.exc}', 'MosMergeError or warnings', obs.exc_type)]
     # C06 is about *whether* each named element was acted upon and reported, not
     # about positions (C01/C02): states are compared as multisets
     def unordered(st):
